@@ -2416,16 +2416,28 @@ class op(object):
             len(equalities) <= 1:
             v = variables[0]
 
-            if lin_ineqs: G = lin_ineqs[0]._f._linear._coeff[v]
-            else: G = None
+            # the coefficients and constants must have their full sizes 
+            # (a scalar coefficient or right-hand side is stored as 1x1)
+            c = objective._linear._coeff.get(v)
+            full = c is not None and c.size == (1,len(v))
 
-            if equalities: A = equalities[0]._f._linear._coeff[v]
-            else: A = None
+            G, A = None, None
+            if lin_ineqs: 
+                G = lin_ineqs[0]._f._linear._coeff.get(v)
+                if G is None or G.size != (len(lin_ineqs[0]),len(v)) or \
+                    len(lin_ineqs[0]._f._constant) != len(lin_ineqs[0]):
+                    full = False
+            if equalities: 
+                A = equalities[0]._f._linear._coeff.get(v)
+                if A is None or A.size != (len(equalities[0]),len(v)) or \
+                    len(equalities[0]._f._constant) != len(equalities[0]):
+                    full = False
 
-            if (format == 'dense' and (G is None or _isdmatrix(G)) and 
+            if full and ((format == 'dense' and 
+                (G is None or _isdmatrix(G)) and 
                 (A is None or _isdmatrix(A))) or \
                 (format == 'sparse' and (G is None or _isspmatrix(G)) 
-                and (A is None or _isspmatrix(A))):  
+                and (A is None or _isspmatrix(A)))):  
                 return None
 
 
